@@ -87,6 +87,8 @@ THEOREMS = [
     "OllamaVerif.C07.phase3Seq_R",
     "OllamaVerif.C07.phase3_R",
     "OllamaVerif.C07.processBatch_SInv",
+    "OllamaVerif.C07.processBatch_outputs",
+    "OllamaVerif.C07.ideal_is_fresh",
     "OllamaVerif.C07.runEvent_SInv",
     "OllamaVerif.C07.runEvents_SInv",
     "OllamaVerif.C07.SInv_init",
